@@ -29,6 +29,8 @@ def run(name, ns, na, script, total, seed=0, epsilon=0.5):
                 tables.append((n_steps, attr, np.asarray(out, dtype=float), conv(*a, **k)))
             elif attr == "update":
                 tables.append((n_steps, attr, np.asarray(out[0], dtype=float), None))
+            elif attr == "model_update":
+                tables.append((n_steps, attr, (np.asarray(out.transition, dtype=float), np.asarray(out.reward, dtype=float)), conv(*a, **k)))
             return out
         setattr(mod, attr, w)
         patched.append((attr, orig))
@@ -124,4 +126,23 @@ def check_greedy(res):
         if cur[s_, a_] < cur[s_].max():
             return "an executed action is not a maximiser of the current table although epsilon is 0", {"step": k, "state": s_, "action": a_, "row": cur[s_].tolist()}
         k += 1
+    return None
+
+
+def check_dyna_model(res):
+    """C14 for train_dynaq: after every environment step the learned model of the visited (s, a) equals the empirical successor
+    frequencies, and the reward entry of (s, a, s') the mean observed reward, of the environment's own steps so far."""
+    steps = [e for e in res["log"] if e[0] == "step"]
+    models = [t for t in res["tables"] if t[1] == "model_update"]
+    seen = {}
+    for k, (e, m) in enumerate(zip(steps, models)):
+        s_, a_, r_, s2 = e[1], e[2], e[3], e[4]
+        seen.setdefault((s_, a_), []).append((s2, r_))
+        T, Rw = m[2]
+        n = len(seen[(s_, a_)])
+        freq = np.array([sum(1 for x, _ in seen[(s_, a_)] if x == j) / n for j in range(T.shape[2])])
+        mean_r = np.mean([r for x, r in seen[(s_, a_)] if x == s2])
+        if not np.allclose(T[s_, a_], freq, atol=1e-6) or abs(Rw[s_, a_, s2] - mean_r) > 1e-5:
+            return "the model learned during train_dynaq differs from the empirical successor frequencies / mean rewards of the environment's steps", \
+                {"step": k, "state": s_, "action": a_, "model_row": T[s_, a_].tolist(), "empirical": freq.tolist(), "model_reward": float(Rw[s_, a_, s2]), "mean_reward": float(mean_r)}
     return None
